@@ -113,6 +113,9 @@ type KnownFinding struct {
 	SigRe    string `json:"sig_regex"`
 	What     string `json:"what"`
 	Status   string `json:"status"` // "known" suppresses; "fixed" suppresses nothing
+	// AlsoFor lists other properties whose engines reach the same defect through shared
+	// machinery (e.g. C02 and C10 build their layouts with C04's deletes).
+	AlsoFor []string `json:"also_for,omitempty"`
 	re       *regexp.Regexp
 }
 
@@ -136,7 +139,13 @@ func loadKnown(prop string) []KnownFinding {
 	}
 	var out []KnownFinding
 	for _, k := range kf.Findings {
-		if k.Property != prop || k.Status != "known" {
+		applies := k.Property == prop
+		for _, a := range k.AlsoFor {
+			if a == prop {
+				applies = true
+			}
+		}
+		if !applies || k.Status != "known" {
 			continue
 		}
 		k.re = regexp.MustCompile(k.SigRe)
@@ -195,6 +204,9 @@ func (e Engine[C]) weight() int {
 	}
 	return e.Weight
 }
+
+// collectDir, when set through VERIF_COLLECT, turns failures into a signature histogram.
+var collectDir = os.Getenv("VERIF_COLLECT")
 
 // fakeTB absorbs rapid's reporting so failures become values.
 type fakeTB struct {
@@ -280,6 +292,18 @@ func (e Engine[C]) batch(t *testing.T, seed uint64, st *Stats, known []KnownFind
 		if k := matchKnown(known, f); k != nil {
 			if searching {
 				st.Known[k.Class+" "+k.SigRe]++
+			}
+			return
+		}
+		if collectDir != "" {
+			// triage mode: histogram of failure signatures, one sample case each
+			key := "COLLECT " + f.Class + " " + f.Sig
+			st.Known[key]++
+			if st.Known[key] == 1 {
+				b, _ := json.Marshal(c)
+				rf := ReplayFile{Property: e.Property, Engine: e.Name, Failure: f, Case: b}
+				rb, _ := json.MarshalIndent(rf, "", " ")
+				_ = os.WriteFile(filepath.Join(collectDir, fmt.Sprintf("collect-%s-%x.json", e.Name, Hash64(key))), rb, 0o644)
 			}
 			return
 		}
